@@ -107,3 +107,158 @@ fn c20_status_line_all_codes() {
     kani::cover!(status.canonical_reason().is_none(), "custom reason");
     kani::cover!(code == 418, "teapot");
 }
+
+/// Length-abstract destination: accepts bytes until `room` is used up (then a short write, then 0 => WriteZero),
+/// counts what it accepted and remembers the byte that landed at the one watched offset `watch`.
+struct Watch { room: usize, pos: usize, watch: usize, seen: Option<u8>, calls: usize }
+impl std::io::Write for Watch {
+    fn write(&mut self, buf: &[u8]) -> std::io::Result<usize> {
+        let n = if buf.len() <= self.room { buf.len() } else { self.room };
+        if self.watch >= self.pos && self.watch - self.pos < n { self.seen = Some(buf[self.watch - self.pos]); }
+        self.pos += n; self.room -= n; self.calls += 1;
+        Ok(n)
+    }
+    fn flush(&mut self) -> std::io::Result<()> { Ok(()) }
+}
+
+const LONG: usize = 320;
+
+/// Byte `j` of the documented grammar for status 200 and the given header list (None: past the end).
+fn grammar_at(j: usize, hs: &[(&[u8], &[u8])]) -> (Option<u8>, usize) {
+    const HEAD: &[u8] = b"Status: 200 OK";
+    let mut off = HEAD.len();
+    let mut got = if j < off { Some(HEAD[j]) } else { None };
+    let mut k = 0;
+    while k < hs.len() {
+        let (n, v) = hs[k];
+        if j == off { got = Some(b'\n'); }
+        off += 1;
+        if j >= off && j - off < n.len() { got = Some(n[j - off]); }
+        off += n.len();
+        if j == off { got = Some(b':'); }
+        if j == off + 1 { got = Some(b' '); }
+        off += 2;
+        if j >= off && j - off < v.len() { got = Some(v[j - off]); }
+        off += v.len();
+        k += 1;
+    }
+    if j == off || j == off + 1 { got = Some(b'\n'); }
+    (got, off + 2)
+}
+
+// @harness name=c20_headers_long_lengths props=C20 tier=quick timeout=1200 rmbody=ioerr
+// @bound status 200, two headers whose name and value are each 0..320 symbolic bytes (symbolic lengths: every line length 3..643, covering 8/16/32/64/128/256-byte boundaries), destination room 0..1400 (symbolic); oracle = returned count, total bytes accepted, and the byte at ONE symbolic offset (every offset, one per solver model) against the documented grammar; name != `status` (documented precondition) assumed as `len != 6 or first byte not s/S`
+// @functions cgi::response::write_headers, std::io::Write::write_all (default method, over the harness writer)
+#[kani::proof]
+#[kani::unwind(8)]
+fn c20_headers_long_lengths() {
+    let (n1, v1, n2, v2): ([u8; LONG], [u8; LONG], [u8; LONG], [u8; LONG]) = (kani::any(), kani::any(), kani::any(), kani::any());
+    let (a, b, c, d): (usize, usize, usize, usize) = (kani::any(), kani::any(), kani::any(), kani::any());
+    kani::assume(a <= LONG && b <= LONG && c <= LONG && d <= LONG);
+    kani::assume(a != 6 || (n1[0] != b's' && n1[0] != b'S'));
+    kani::assume(c != 6 || (n2[0] != b's' && n2[0] != b'S'));
+    let hs: [(&[u8], &[u8]); 2] = [(&n1[..a], &v1[..b]), (&n2[..c], &v2[..d])];
+    let room: usize = kani::any();
+    kani::assume(room <= 1400);
+    let j: usize = kani::any();
+    kani::assume(j <= 1400);
+    let mut w = Watch { room, pos: 0, watch: j, seen: None, calls: 0 };
+    let res = write_headers(&mut w, http::StatusCode::OK, hs.iter().copied());
+    let (exp_j, en) = grammar_at(j, &hs);
+    match res {
+        Ok(n) => {
+            assert!(room >= en, "reported success although the destination is too small");
+            assert!(n == en, "returned byte count differs from the bytes of the documented grammar");
+            assert!(w.pos == en, "bytes handed to the destination differ in number from the returned count");
+            assert!(w.seen == exp_j, "byte at the watched offset differs from the documented header grammar");
+            kani::cover!(room == en, "exact fit");
+            kani::cover!(a + b == 255 && exp_j.is_some(), "256-byte boundary line");
+            kani::cover!(a == LONG && b == LONG && c == LONG && d == LONG, "all maximal");
+        }
+        Err(e) => {
+            assert!(room < en, "failed although the destination is large enough");
+            if j < room { assert!(w.seen == exp_j, "bytes accepted before the failure differ from the documented grammar"); }
+            std::mem::forget(e);
+            kani::cover!(room + 1 == en, "one byte short");
+        }
+    }
+}
+
+// @harness name=c20_redirect_long_lengths props=C20 tier=quick timeout=900 rmbody=ioerr
+// @bound location of 0..320 bytes (symbolic length; ASCII `a` everywhere except one symbolic ASCII byte at a symbolic position), destination room 0..400 (symbolic); oracle = returned count, bytes accepted, byte at one symbolic offset
+// @functions cgi::response::simple_redirect, std::io::Write::write_all (default method, over the harness writer)
+#[kani::proof]
+#[kani::unwind(8)]
+fn c20_redirect_long_lengths() {
+    let mut loc = [b'a'; LONG];
+    let (p, x): (usize, u8) = (kani::any(), kani::any());
+    kani::assume(p < LONG && x < 0x80);
+    loc[p] = x;
+    let ll: usize = kani::any();
+    kani::assume(ll <= LONG);
+    let room: usize = kani::any();
+    kani::assume(room <= 400);
+    let j: usize = kani::any();
+    kani::assume(j <= 400);
+    let mut w = Watch { room, pos: 0, watch: j, seen: None, calls: 0 };
+    let res = simple_redirect(&mut w, unsafe { std::str::from_utf8_unchecked(&loc[..ll]) });
+    const L: &[u8] = b"Location: ";
+    let en = L.len() + ll + 2;
+    let exp_j = if j < L.len() { Some(L[j]) } else if j - L.len() < ll { Some(loc[j - L.len()]) } else if j < en { Some(b'\n') } else { None };
+    match res {
+        Ok(n) => {
+            assert!(room >= en, "reported success although the destination is too small");
+            assert!(n == en && w.pos == en, "returned byte count differs from the bytes of the documented grammar");
+            assert!(w.seen == exp_j, "byte at the watched offset differs from `Location: <loc>\\n\\n`");
+            kani::cover!(room == en && ll == LONG, "exact fit, maximal location");
+            kani::cover!(exp_j == Some(x) && x != b'a', "watched offset is the symbolic byte");
+        }
+        Err(e) => {
+            assert!(room < en, "failed although the destination is large enough");
+            if j < room { assert!(w.seen == exp_j, "bytes accepted before the failure differ from the documented grammar"); }
+            std::mem::forget(e);
+            kani::cover!(room + 1 == en, "one byte short");
+        }
+    }
+}
+
+// @harness name=c20_headers_long_one props=C20 tier=quick timeout=900 rmbody=ioerr
+// @bound status 200, one header: name of 0..320 bytes (`n` everywhere except one symbolic byte at a symbolic position), value of 0..320 bytes (`v` likewise), symbolic lengths, destination room 0..700 (symbolic); same length-abstract oracle as c20_headers_long_lengths (a lighter instance that stays decidable on changed code)
+// @functions cgi::response::write_headers, std::io::Write::write_all (default method, over the harness writer)
+#[kani::proof]
+#[kani::unwind(8)]
+fn c20_headers_long_one() {
+    let mut n1 = [b'n'; LONG];
+    let mut v1 = [b'v'; LONG];
+    let (p, x, q, y): (usize, u8, usize, u8) = (kani::any(), kani::any(), kani::any(), kani::any());
+    kani::assume(p < LONG && q < LONG);
+    n1[p] = x; v1[q] = y;
+    let (a, b): (usize, usize) = (kani::any(), kani::any());
+    kani::assume(a <= LONG && b <= LONG);
+    kani::assume(a != 6 || (n1[0] != b's' && n1[0] != b'S'));
+    let hs: [(&[u8], &[u8]); 1] = [(&n1[..a], &v1[..b])];
+    let room: usize = kani::any();
+    kani::assume(room <= 700);
+    let j: usize = kani::any();
+    kani::assume(j <= 700);
+    let mut w = Watch { room, pos: 0, watch: j, seen: None, calls: 0 };
+    let res = write_headers(&mut w, http::StatusCode::OK, hs.iter().copied());
+    let (exp_j, en) = grammar_at(j, &hs);
+    match res {
+        Ok(n) => {
+            assert!(room >= en, "reported success although the destination is too small");
+            assert!(n == en, "returned byte count differs from the bytes of the documented grammar");
+            assert!(w.pos == en, "bytes handed to the destination differ in number from the returned count");
+            assert!(w.seen == exp_j, "byte at the watched offset differs from the documented header grammar");
+            kani::cover!(room == en, "exact fit");
+            kani::cover!(a + b == 255 && exp_j.is_some(), "256-byte boundary line");
+            kani::cover!(exp_j == Some(y) && y != b'v', "watched offset is the symbolic value byte");
+        }
+        Err(e) => {
+            assert!(room < en, "failed although the destination is large enough");
+            if j < room { assert!(w.seen == exp_j, "bytes accepted before the failure differ from the documented grammar"); }
+            std::mem::forget(e);
+            kani::cover!(room + 1 == en, "one byte short");
+        }
+    }
+}
